@@ -421,6 +421,8 @@ GRIDW = ['Environments.discrete_grid_pos_to_id', 'Environments.DiscreteWorld.__i
          'Environments.GridWorld.__init__', 'Environments.DiscreteWorld.add_cell_component',
          'Environments.DiscreteWorld.remove_cell_component', 'Environments.ConstantGenerator.__call__',
          'Environments.LookupGenerator.__call__', 'Core.Environment.__init__']
+PLIST = ['Batching.ParameterList.__init__#empty', 'Batching.ParameterList.__init__#dict', 'Batching.ParameterList.add_parameter',
+         'Batching.ParameterList.remove_parameter', 'Batching.ParameterList.build']
 # A property also leans on the representation invariants its functions *require* (SM_rep, Env_rep / PoolsMirror, InWorld,
 # Grid_rep): every function that re-establishes such an invariant is verified by the same check (SCHED / ENVW / SPACEW /
 # GRIDW below), otherwise a writer that breaks the invariant would only be reported under the property that owns it.
@@ -446,9 +448,9 @@ DEPS = {
     'C12': ENVW + SPACEW,
     'C13': ENVW,
     'C15': ['Core.Model.execute', 'Core.SystemManager.execute_systems', 'Core.SystemManager.__getitem__',
-            'Batching.ParameterList.build', 'Batching._build_model_from_kwargs#impl'],
-    'C16': ['Batching.ParameterList.build', 'Batching._build_model_from_kwargs#impl', 'Batching._run_model_for_search#body',
-            'Core.Model.execute', 'Core.SystemManager.execute_systems'],
+            'Batching._build_model_from_kwargs#impl'] + PLIST,
+    'C16': ['Batching._build_model_from_kwargs#impl', 'Batching._run_model_for_search#body',
+            'Core.Model.execute', 'Core.SystemManager.execute_systems'] + PLIST,
     # collectors observe the state left by the timestep's systems: that is the scheduler's order (C01) and, for systems
     # that edit the system set, its dynamic view (C05)
     'C17': SCHED + ['Core.SystemManager.execute_systems', 'Core.SystemManager.execute_systems#dynamic'],
